@@ -51,6 +51,8 @@ type Ctx struct {
 	Rule     string
 	cases    []*Case
 	ReplayID int // >=0: only this case is of interest
+	rawOut   map[int]Sexp // unprojected model outputs
+	golden   int          // cases cross-checked in the kernel
 	Notes    []string
 	Hist     map[string]map[string]int
 	replay   bool
@@ -184,6 +186,10 @@ func (c *Ctx) runModel(cases []*Case) (map[int]Sexp, error) {
 		if err != nil {
 			return nil, fmt.Errorf("modelrun output line %d: %v", i, err)
 		}
+		if c.rawOut == nil {
+			c.rawOut = map[int]Sexp{}
+		}
+		c.rawOut[order[i]] = s
 		if cs := byID[order[i]]; cs != nil {
 			s = cs.project(s)
 		}
@@ -253,6 +259,15 @@ func (c *Ctx) Finish() int {
 	}
 
 	modelOut, modelErr := c.runModel(c.cases)
+	if modelErr == nil {
+		// cross-check the extracted model against in-kernel evaluation on a few cases
+		k := c.Scale(3, 25)
+		if n, msg := c.goldenCheck(c.cases, c.rawOut, k); msg != "" {
+			modelErr = fmt.Errorf("%s", msg)
+		} else {
+			c.golden = n
+		}
+	}
 	modelStatus := "ok"
 	if modelErr != nil {
 		modelStatus = "unavailable: " + modelErr.Error()
@@ -387,6 +402,7 @@ func (c *Ctx) Finish() int {
 		"histograms":          c.Hist,
 		"proof_status":        proofStatus,
 		"model_status":        modelStatus,
+		"kernel_cross_checked": c.golden,
 		"print_assumptions":   assum,
 		"theorems":            strings.Fields(os.Getenv("VERIF_THEOREMS")),
 		"gt_oracle_violations": len(gtViol),
